@@ -3,6 +3,7 @@ package sim
 import (
 	"fmt"
 	"strings"
+	"time"
 )
 
 // Typed generator of calculator expressions and of mustache templates. The
@@ -18,11 +19,12 @@ type ExprGen struct {
 	Strings []string          // string constants used
 	MaxVars int
 	NoCase  bool // do not vary letter case of identifiers
+	Mixed   bool // allow operands of mismatching types
 	nodes   int
 	Budget  int
 }
 
-var exprVarPool = []string{"a", "b", "c", "d", "e", "x1", "_v", "Total"}
+var exprVarPool = []string{"a", "b", "c", "d", "e", "x1", "_v", "Total", "n9", "ts", "dt"}
 var exprTypes = []string{"int", "int", "int", "float", "str", "bool"}
 
 func NewExprGen(r *Rand) *ExprGen {
@@ -204,7 +206,7 @@ func (g *ExprGen) Gen(typ string, depth int) string {
 		}
 		switch g.R.Intn(11) {
 		case 0, 1:
-			t := g.R.Pick([]string{"int", "int", "float", "str"})
+			t := g.R.Pick([]string{"int", "int", "float", "str", "long", "span", "date"})
 			return "(" + g.Gen(t, depth-1) + g.sp() + g.R.Pick([]string{"=", "<>", "!=", ">", "<", ">=", "<="}) + g.sp() + g.Gen(t, depth-1) + ")"
 		case 2:
 			return "(" + g.Gen("bool", depth-1) + g.sp() + g.kw(g.R.Pick([]string{"AND", "OR", "XOR"})) + g.sp() + g.Gen("bool", depth-1) + ")"
@@ -231,14 +233,63 @@ func (g *ExprGen) Gen(typ string, depth int) string {
 		}
 	case "arr":
 		return g.fn("Array") + "(" + g.args(g.R.Pick([]string{"int", "str", "bool"}), g.R.Range(0, 4), depth-1) + ")"
+	case "long":
+		// Long values exist only as variables
+		if leaf || g.R.Bool(0.4) {
+			if v := g.varOf("long"); v != "" {
+				return v
+			}
+			return g.intLit()
+		}
+		switch g.R.Intn(4) {
+		case 0:
+			return g.bin("long", g.R.Pick([]string{"+", "-", "*"}), depth)
+		case 1:
+			return "(" + g.Gen("long", depth-1) + g.sp() + g.R.Pick([]string{"/", "%"}) + g.sp() + g.R.Pick([]string{"1", "3", "7"}) + ")"
+		case 2:
+			return "(" + g.Gen("long", depth-1) + g.sp() + g.R.Pick([]string{"<<", ">>"}) + " " + g.R.Pick([]string{"0", "1", "5"}) + ")"
+		default:
+			return "(" + g.Gen("long", depth-1) + g.sp() + g.kw(g.R.Pick([]string{"AND", "OR", "XOR"})) + g.sp() + g.Gen("int", depth-1) + ")"
+		}
+	case "span":
+		if leaf || g.R.Bool(0.4) {
+			if v := g.varOf("span"); v != "" {
+				return v
+			}
+			return g.fn("TimeSpan") + "(" + g.R.Pick([]string{"1000", "1, 2, 3", "0, 0, 0, 5, 250"}) + ")"
+		}
+		switch g.R.Intn(3) {
+		case 0:
+			return g.bin("span", g.R.Pick([]string{"+", "-"}), depth)
+		case 1:
+			return "(" + g.Gen("date", depth-1) + g.sp() + "-" + g.sp() + g.Gen("date", depth-1) + ")"
+		default:
+			return g.fn("If") + "(" + g.Gen("bool", depth-1) + "," + g.Gen("span", depth-1) + "," + g.Gen("span", depth-1) + ")"
+		}
+	case "date":
+		if g.R.Bool(0.6) {
+			if v := g.varOf("date"); v != "" {
+				return v
+			}
+		}
+		return g.fn("Date") + "(" + fmt.Sprint(g.R.Range(1990, 2030)) + ", " + fmt.Sprint(g.R.Range(1, 12)) + ", " + fmt.Sprint(g.R.Range(1, 28)) + ")"
 	}
 	return g.intLit()
+}
+
+// mismatch occasionally replaces an operand by one of another type, so that the
+// conversions of the operations manager (or its refusal) are exercised too.
+func (g *ExprGen) mismatch(typ string) string {
+	if g.Mixed && g.R.Bool(0.12) {
+		return g.R.Pick([]string{"int", "float", "str", "bool", "long"})
+	}
+	return typ
 }
 
 func (g *ExprGen) paren(s string) string { return "(" + s + ")" }
 
 func (g *ExprGen) bin(typ, op string, depth int) string {
-	return "(" + g.Gen(typ, depth-1) + g.sp() + op + g.sp() + g.Gen(typ, depth-1) + ")"
+	return "(" + g.Gen(typ, depth-1) + g.sp() + op + g.sp() + g.Gen(g.mismatch(typ), depth-1) + ")"
 }
 
 func (g *ExprGen) args(typ string, n int, depth int) string {
@@ -252,7 +303,7 @@ func (g *ExprGen) args(typ string, n int, depth int) string {
 // Top generates a complete expression; minimal parenthesisation is not
 // attempted (C01 is not claimed), everything composite is parenthesised.
 func (g *ExprGen) Top() string {
-	typ := g.R.Pick([]string{"int", "int", "bool", "bool", "float", "str", "arr"})
+	typ := g.R.Pick([]string{"int", "int", "bool", "bool", "float", "str", "arr", "long", "span"})
 	return g.Gen(typ, g.R.Range(1, 4))
 }
 
@@ -276,6 +327,12 @@ func GenValue(r *Rand, typ string) Val {
 		return VStr(r.Pick([]string{"", "a", "ab", "abc", "hello", "Ab", "x y"}))
 	case "bool":
 		return VBool(r.Bool(0.5))
+	case "long":
+		return VLong(int64(r.Range(-9, 1000)) * int64(r.PickInt([]int{1, 1, 1 << 20, 1 << 33})))
+	case "span":
+		return VSpan(time.Duration(r.Range(-5000, 500000)) * time.Millisecond)
+	case "date":
+		return VTime(time.Unix(int64(r.Range(0, 2_000_000_000)), 0).UTC())
 	}
 	return VNull()
 }
